@@ -1136,7 +1136,10 @@ def _do_invalid(self, st):
             mode = st.get("mode", 0) % 3
             ks = [1.3 * k for k in ks] if mode == 0 else (ks[:-1] if mode == 1 else [ks[0], 0.5 * ks[1]] + ks[2:])
         else:
-            ks = kraus_ops(rng_seed, D + 1, st.get("nops", 2), False)
+            wsz = [x for x in (D + 1, 1, max(1, D - 1)) if x != D]
+            wd = wsz[st.get("mode", 0) % len(wsz)]
+            site["wrong_dim"] = "1" if wd == 1 else ("larger" if wd > D else "smaller")
+            ks = kraus_ops(rng_seed, wd, st.get("nops", 2), False)
         jks = [jnp.array(k) for k in ks]
         fn = (lambda: objs[0].apply_kraus(jks)) if entry == "state" else (lambda: holder().apply_kraus(jks, *objs))
     elif fault == "povm_wrong_size":
@@ -1147,13 +1150,19 @@ def _do_invalid(self, st):
         D = int(np.prod([pre.dim_of(t) for t in targets]))
         if D > 24:
             raise Inapplicable("too large")
-        ms = [jnp.array(m) for m in povm_ops(rng_seed, D + 1, 2, False)]
+        wsz = [x for x in (D + 1, 1, max(1, D - 1)) if x != D]
+        wd = wsz[st.get("mode", 0) % len(wsz)]
+        site["wrong_dim"] = "1" if wd == 1 else ("larger" if wd > D else "smaller")
+        ms = [jnp.array(m) for m in povm_ops(rng_seed, wd, 2, False)]
         fn = (lambda: objs[0].measure_POVM(ms)) if entry == "state" else (lambda: holder().measure_POVM(ms, *objs))
     elif fault == "custom_op_wrong_size":
         t = targets[0]
         self.entry_obj(entry, targets)
         d = pre.dim_of(t)
-        m = jnp.array(actions.seeded_matrix(rng_seed, d + 1, True))
+        wrong = [d + 1, 1, max(1, d - 1), 2 * d]
+        wd = [x for x in wrong if x != d][st.get("mode", 0) % len([x for x in wrong if x != d])]
+        site["wrong_dim"] = "1" if wd == 1 else ("larger" if wd > d else "smaller")
+        m = jnp.array(actions.seeded_matrix(rng_seed, wd, True))
         if w.kind[t] == "pol":
             op = Operation(PolarizationOperationType.Custom, operator=m)
         elif w.kind[t] == "custom":
